@@ -650,7 +650,42 @@ cmd_alignment(const char *tag)
             }
             fputc(']', vt_out);
         }
-        fprintf(vt_out, "],\"nstate\":%d,\"wip\":%d,\"pip\":%d", bin_mdef_n_emit_state(d->acmod->mdef),
+        fprintf(vt_out, "]");
+        {
+            /* The model each phone stands for, looked up in the model definition for the phone's neighbours: the
+             * phone before and after it in the alignment (across word boundaries, fillers included), silence
+             * before the first and after the last word; position begin / internal / end / single within its word.
+             * flat_sseq is what the alignment holds, ctx_sseq what that rule gives. */
+            bin_mdef_t *m = d->acmod->mdef;
+            int sil = bin_mdef_silphone(m), ne = bin_mdef_n_emit_state(m), k, e, np = 0, lc = sil;
+            fprintf(vt_out, ",\"flat_sseq\":[");
+            for (k = 0; k < (int)al->sseq.n_ent; ++k) {
+                fprintf(vt_out, "%s[", k ? "," : "");
+                for (e = 0; e < ne; ++e)
+                    fprintf(vt_out, "%s%d", e ? "," : "", (int)bin_mdef_sseq2sen(m, al->sseq.seq[k].id.pid.ssid, e));
+                fputc(']', vt_out);
+            }
+            fprintf(vt_out, "],\"ctx_sseq\":[");
+            for (w = 0; w < alignment_n_words(al); ++w) {
+                int32 wid = al->word.seq[w].id.wid;
+                int len = dict_pronlen(d->dict, wid);
+                int nextfirst = w + 1 < alignment_n_words(al) ? dict_first_phone(d->dict, al->word.seq[w + 1].id.wid) : sil;
+                for (k = 0; k < len; ++k) {
+                    int b = dict_pron(d->dict, wid, k);
+                    int l = k == 0 ? lc : dict_pron(d->dict, wid, k - 1);
+                    int r = k == len - 1 ? nextfirst : dict_pron(d->dict, wid, k + 1);
+                    word_posn_t pos = len == 1 ? WORD_POSN_SINGLE : k == 0 ? WORD_POSN_BEGIN : k == len - 1 ? WORD_POSN_END : WORD_POSN_INTERNAL;
+                    int ss = bin_mdef_pid2ssid(m, bin_mdef_phone_id_nearest(m, b, l, r, pos));
+                    fprintf(vt_out, "%s[", np++ ? "," : "");
+                    for (e = 0; e < ne; ++e)
+                        fprintf(vt_out, "%s%d", e ? "," : "", (int)bin_mdef_sseq2sen(m, ss, e));
+                    fputc(']', vt_out);
+                }
+                lc = dict_last_phone(d->dict, wid);
+            }
+            fprintf(vt_out, "]");
+        }
+        fprintf(vt_out, ",\"nstate\":%d,\"wip\":%d,\"pip\":%d", bin_mdef_n_emit_state(d->acmod->mdef),
                 d->search ? (int)((fsg_search_t *)d->search)->wip : 0, d->search ? (int)((fsg_search_t *)d->search)->pip : 0);
     }
     fprintf(vt_out, "}\n");
